@@ -113,6 +113,30 @@ def toml_text(file_vals, with_tables=True, profile="basic"):
     return "\n".join(out)
 
 
+def prefix_as_used(o, prefix, known):
+    """the prefix read from the definition of Foo, qualified when another place that takes the prefix shows something else: a definition
+    whose name does not start with it, or a reference to a type of the run (member type, payload, helper type of a struct variant) that
+    names no definition"""
+    from .c09 import leaves
+    # the types of the program that are not typeshared (they are there to be mapped by the profiles that map them)
+    known = set(known) | {pre + k for k in ("Mapped", "Mapped2", "Stamped") for pre in ("", prefix)}
+    names = {d["name"] for d in o["defs"]}
+    params = {g for d in o["defs"] for g in (d.get("generics") or [])} | {g for d in o["defs"] for v in d.get("variants", []) for g in (v.get("generics") or [])}
+    odd = sorted(n for n in names if not n.startswith(prefix) and n not in known)
+    refs = []
+    for d in o["defs"]:
+        for m in d.get("members") or []:
+            refs += leaves(m.get("ty"), [])
+        for v in d.get("variants") or []:
+            refs += leaves(v.get("ty"), []) if isinstance(v.get("ty"), dict) else []
+            for m in v.get("members") or []:
+                refs += leaves(m.get("ty"), [])
+        if d.get("kind") == "alias":
+            refs += leaves(d.get("target"), [])
+    odd += sorted({r for r in refs if r not in names and r not in params and r not in known})
+    return prefix if not odd else f"{prefix} (but not at: {', '.join(odd)})"
+
+
 def observe(lang, text, profile="basic"):
     """generated code -> what it shows of the dual settings, and of every file-only table of the profile: for a list, the
     configured entries that the governed place shows (in configured order); for a mapping, the type written for the field"""
@@ -135,7 +159,7 @@ def observe(lang, text, profile="basic"):
         helpers = {"ReviverFunc", "ReplacerFunc"} <= set(o.get("helper_defs", [])) | {d["name"] for d in o["defs"]} and ("new " + str(name)) in texts[0]
         tobs["type_mappings"]["Vec<u8>"] = name if helpers else f"{name} (without its reviver / replacer helpers)"
     if lang == "swift":
-        obs["swift_prefix"] = foo["name"][:-3]
+        obs["swift_prefix"] = prefix_as_used(o, foo["name"][:-3], {"CodableVoid"} | set(t.get("type_mappings", {}).values()))
         gen = [d for d in o["defs"] if d["name"].endswith("Gen")][0]
         void = o.get("helper_inherits", {}).get("CodableVoid")
         tobs["default_decorators"] = [d for d in t.get("default_decorators", []) if d in foo.get("inherits", [])]
@@ -148,7 +172,7 @@ def observe(lang, text, profile="basic"):
         if "codablevoid_constraints" in t:
             tobs["codablevoid_constraints"] = [c for c in t["codablevoid_constraints"] if void and c in void]
     elif lang == "kotlin":
-        obs["kotlin_prefix"] = foo["name"][:-3]
+        obs["kotlin_prefix"] = prefix_as_used(o, foo["name"][:-3], set(t.get("type_mappings", {}).values()))
         obs["java_package"] = abstract("java_package", o["package"])
     elif lang == "scala":
         obs["scala_package"] = abstract("scala_package", o["package"] or "")
